@@ -31,7 +31,7 @@ Judge(o) ==
        /\ Chk(NoNestedUnion(o.u_ab) /\ NoNestedUnion(o.u_ab_c), o.tid, "viol:NeverNests")
        /\ Chk(o.eq_never_r /\ o.eq_never_l, o.tid, "viol:NeverIdentity")
        /\ Chk((Closed(a) /\ Closed(b) /\ StaticV(a) /\ StaticV(b)) => (o.acc_a /\ o.acc_b), o.tid, "viol:AcceptsOperands")
-       /\ Chk((Closed(a) /\ Closed(b) /\ StaticV(a) /\ StaticV(b) /\ Closed(o.u_ab)) => Members(o.u_ab) = Members(a) \cup Members(b),
+       /\ Chk((Closed(a) /\ Closed(b) /\ StaticV(a) /\ StaticV(b) /\ Closed(o.u_ab) /\ ~HasTD(a) /\ ~HasTD(b)) => Members(o.u_ab) = Members(a) \cup Members(b),
               o.tid, "viol:MembersAreUnion")
        /\ Chk(o.eq_ab => o.hash_ab, o.tid,
               IF Dev_UnhashableLiteral(a) THEN "dev:unhashable-literal-hashes-by-identity" ELSE "viol:EqualImpliesHashEqual")
